@@ -33,4 +33,9 @@ MustBeFalse(D1, D2) == LET N1 == {NormQ(q) : q \in D1}  N2 == {NormQ(q) : q \in 
    \/ Cardinality(N1) # Cardinality(N2)
    \/ Cardinality(BnodesOf(N1)) # Cardinality(BnodesOf(N2))
    \/ Blanked(D1) # Blanked(D2)
+\* literal variant (language tags compared as written): what canonical N-Quads can distinguish (C05)
+IsomorphicExact(D1, D2) ==
+  LET B1 == BnodesOf(D1)  B2 == BnodesOf(D2) IN
+  /\ Cardinality(D1) = Cardinality(D2) /\ Cardinality(B1) = Cardinality(B2)
+  /\ \E f \in Bijections(B1, B2) : RenD(D1, f) = D2
 ====
